@@ -68,40 +68,6 @@ def equal_exact(a, b):
     return a["n"] == b["n"] and exact_form(a) == exact_form(b)
 
 
-def _colors(g):
-    n = g["n"]
-    col = [0] * n
-    star = lambda i: "*"
-    # initial colour: attributes and out-edge attributes with references blanked
-    init = []
-    for node in g["nodes"]:
-        init.append(repr((canon_attrs(node["attrs"], star),
-                          tuple(sorted((canon_attrs(e["attrs"], star) for e in node["out"]), key=repr)))))
-    ids = {}
-    col = [ids.setdefault(x, len(ids)) for x in init]
-    incoming = [[] for _ in range(n)]
-    for i, node in enumerate(g["nodes"]):
-        for e in node["out"]:
-            if 0 <= e["sink"] < n:
-                incoming[e["sink"]].append((i, e))
-    for _ in range(n + 1):
-        cm = lambda i: ("c", col[i]) if 0 <= i < n else ("dangling", i)
-        sig = []
-        for i, node in enumerate(g["nodes"]):
-            outs = tuple(sorted(((cm(e["sink"]), canon_attrs(e["attrs"], cm)) for e in node["out"]), key=repr))
-            ins = tuple(sorted(((cm(j), canon_attrs(e["attrs"], cm)) for (j, e) in incoming[i]), key=repr))
-            sig.append(repr((col[i], canon_attrs(node["attrs"], cm), outs, ins)))
-        # colour names must be comparable ACROSS graphs: use the signature text itself, compressed by sorting
-        ids = {x: k for k, x in enumerate(sorted(set(sig)))}
-        newcol = [ids[x] for x in sig]
-        if len(set(newcol)) == len(set(col)):
-            col = newcol
-            # one more pass does not split further; keep signature-derived names stable across graphs
-            break
-        col = newcol
-    return col, sig
-
-
 def isomorphic(a, b, budget=20000):
     """True / False / None (undetermined within the budget)"""
     if a["n"] != b["n"]:
@@ -169,8 +135,22 @@ def isomorphic(a, b, budget=20000):
     return rec(0)
 
 
+def _mentions(v, path, out):
+    """graph-node references inside a value, with the path at which they occur"""
+    t = v["t"]
+    if t == "gn":
+        out.append((v["g"], path))
+    elif t == "list":
+        for i, x in enumerate(v["l"]):
+            _mentions(x, path + "/%d" % i, out)
+    elif t == "set":
+        for x in v["e"]:
+            _mentions(x, path + "/*", out)
+
+
 def _colors_full(g):
-    """colour refinement to a fixed point (names local to g)"""
+    """colour refinement to a fixed point over four relations: outgoing edges, incoming edges, references from a
+    node's (or its edges') attribute values, and - in the other direction - being referenced from them"""
     n = g["n"]
     star = lambda i: "*"
     init = []
@@ -180,10 +160,20 @@ def _colors_full(g):
     ids = {x: k for k, x in enumerate(sorted(set(init)))}
     col = [ids[x] for x in init]
     incoming = [[] for _ in range(n)]
+    referenced = [[] for _ in range(n)]      # z -> [(x, where)]: an attribute of x (or of an edge of x) mentions z
     for i, node in enumerate(g["nodes"]):
         for e in node["out"]:
             if 0 <= e["sink"] < n:
                 incoming[e["sink"]].append((i, e))
+        ms = []
+        for k, v in node["attrs"].items():
+            _mentions(v, "n:" + k, ms)
+        for e in node["out"]:
+            for k, v in e["attrs"].items():
+                _mentions(v, "e:" + k, ms)
+        for z, where in ms:
+            if 0 <= z < n:
+                referenced[z].append((i, where))
     sig = init
     for _ in range(n + 2):
         cm = lambda i: ("c", col[i]) if 0 <= i < n else ("dangling", i)
@@ -191,7 +181,8 @@ def _colors_full(g):
         for i, node in enumerate(g["nodes"]):
             outs = tuple(sorted(((cm(e["sink"]), canon_attrs(e["attrs"], cm)) for e in node["out"]), key=repr))
             ins = tuple(sorted(((cm(j), canon_attrs(e["attrs"], cm)) for (j, e) in incoming[i]), key=repr))
-            sig.append(repr((col[i], canon_attrs(node["attrs"], cm), outs, ins)))
+            refs = tuple(sorted(((col[x], where) for (x, where) in referenced[i]), key=repr))
+            sig.append(repr((col[i], canon_attrs(node["attrs"], cm), outs, ins, refs)))
         ids = {x: k for k, x in enumerate(sorted(set(sig)))}
         newcol = [ids[x] for x in sig]
         if len(set(newcol)) == len(set(col)):
